@@ -250,7 +250,7 @@ func Check() *common.Check {
 	return &common.Check{
 		ID:    "C13",
 		Level: "exploration",
-		Rule: "inputs: every single-token deletion, duplication and replacement (6 hostile tokens) of a spread of 300 (quick) / 2000 (thorough) sqlgen statements; all fragment strings of length <=3 (quick) / <=4 (thorough) over lexgen's 37-fragment lexical alphabet (bad escapes, unterminated literals, lone punctuation, control bytes); " +
+		Rule: "inputs: every single-token deletion, duplication and replacement (13 tokens, one of every lexical kind) of a spread of 300 (quick) / 2000 (thorough) sqlgen statements; all fragment strings of length <=3 (quick) / <=4 (thorough) over lexgen's 37-fragment lexical alphabet (bad escapes, unterminated literals, lone punctuation, control bytes); " +
 			"nesting beyond the depth limit in 6 constructs; an input one byte over the size limit; each through 10 failing-capable entry points; every input the parser (not the tokenizer) rejects is also run as a history: rejected input, a statement exactly at the nesting limit, the rejected input again - on one Parser object and (first two) inside one recovery call. distinct = distinct input text; non-trivial = at least one entry point rejects the input",
 		Assume: []string{"stage of a failure = whether tokenizer.Tokenize alone rejects the input", "message template = message with quoted/numeric parts removed, first five words before the first colon"},
 		Enumerate: func(e *common.Enum) {
@@ -270,7 +270,9 @@ func Check() *common.Check {
 			if e.Thorough() {
 				n = 2000
 			}
-			hostile := []string{")", ",", "SELECT", "]", "'x", "@@"}
+			// one replacement token of every lexical kind: punctuation, keyword, unterminated literal, stray operator, the
+			// number forms, a string, an identifier, NULL, a star
+			hostile := []string{")", ",", "SELECT", "]", "'x", "@@", "1.5", "1e3", "99999999999999999999", "'s'", "zz", "NULL", "*"}
 			step := len(valid)/n + 1
 			for i := 0; i < len(valid); i += step {
 				s := valid[i]
